@@ -18,3 +18,7 @@ for yn, wn, kc, sw in [(0, 0, 0, 0), (0, 0, 0, 1), (1, 1, 0, 0), (1, 0, 1, 0), (
     OBS.append(Ob(['C18'], 'objeq_%d%d%d%d' % (yn, wn, kc, sw), 'filt', 'harness/filt.c', 'h_objeq', defs=['YN=%d' % yn, 'WN=%d' % wn, 'KC=%d' % kc, 'SW=%d' % sw], unwind=8, fs=4096, objbits=12, cap=300, hunwind=8,
         desc='object equality {"a":x,"b":%s} vs {"a":z,"%s":%s}%s: equal iff same keys with equal values; a missing key is not a null member; symmetric; != is the negation' % ('null' if yn else 'y', 'c' if kc else 'b', 'null' if wn else 'w', ' (second object built in the other order)' if sw else ''),
         bound='all byte-sized x,y,z,w; objects built with the low-level API on an arena allocator'))
+for rm_ in (1, 2):
+    OBS.append(Ob(['C04', 'C06', 'C14'], 'obj_hist_remove%d' % rm_, 'filt', 'harness/filt.c', 'h_obj_hist', defs=['RM=%d' % rm_], unwind=8, fs=4096, objbits=12, cap=300, hunwind=8,
+        desc='ObjectData history: add k1:v1, add k2:v2, remove the %s member, add k3:v3 (keys a, b, c): survivor intact and first, new member last, lookups agree, freed slots reused' % ('first' if rm_ == 1 else 'second'),
+        bound='all int32 values; low-level object API on an arena allocator'))
